@@ -11,6 +11,7 @@ reply:
 wop = {"m":0|1,"op":name,…}:
   construct{kvs} add{e} adds{es} create{cls,kw} remove{e} set{e,k,v} del{e,ks} pop{e,k} popitem{e}
   clear{e} update{e,kvs} unique{e,pre} copy{e} copyx{e} parse{spawn,ents}
+  setdefault{e,k,v} ior{e,kvs} setkeys{e,kvs} deleach{e}
   iterc{key,act} itert{key|null,act}     act = {"a":set|del|pop|remove|clear|create, …}
 The repairs the model assumes are `Gen.C07.current` (extracted from vmf.py); a request may override
 them with "fix":[9 booleans] (used to replay histories against the as-found model).
@@ -79,6 +80,10 @@ def wopOf (j : Json) : Except String WOp := do
   | "parse" =>
     let es ← (← j.getObjVal? "ents").getArr?
     pure (.parse m (← kvsOf (← j.getObjVal? "spawn")) (← es.toList.mapM kvsOf))
+  | "setdefault" => pure (.on m (.setdefault (← e) (← nm "k") (← nm "v")))
+  | "ior" => pure (.on m (.ior (← e) (← kvsOf (← j.getObjVal? "kvs"))))
+  | "setkeys" => pure (.on m (.assignKeys (← e) (← kvsOf (← j.getObjVal? "kvs"))))
+  | "deleach" => pure (.on m (.delEach (← e)))
   | "iterc" => pure (.on m (.iterClass (← nm "key") (← actOf (← j.getObjVal? "act"))))
   | "itert" => pure (.on m (.iterTarget (← optNameOf (← j.getObjVal? "key")) (← actOf (← j.getObjVal? "act"))))
   | _ => throw s!"unknown op {op}"
